@@ -47,6 +47,10 @@ def plain(prog):
             elif k == 'use':
                 _occ(occs, it['x'], 'use', ln, len(pad))
                 lines.append('%s%s' % (pad, it['x']))
+            elif k == 'assign':
+                _occ(occs, it['x'], 'bind', ln, len(pad))
+                _occ(occs, it['y'], 'use', ln, len(pad) + len(it['x']) + 3)
+                lines.append('%s%s = %s' % (pad, it['x'], it['y']))
             elif k in ('global', 'nonlocal'):
                 _occ(occs, it['x'], k, ln, len(pad) + len(k) + 1)
                 lines.append('%s%s %s' % (pad, k, it['x']))
@@ -117,6 +121,12 @@ def executable(prog):
                 i = nid()
                 lines.append('%stry: _u(%d, %s)' % (pad, i, it['x']))
                 lines.append('%sexcept NameError: _u(%d, _UNBOUND)' % (pad, i))
+            elif k == 'assign':
+                bi = nid()
+                i = nid()
+                lines.append('%stry: _u(%d, %s)' % (pad, i, it['y']))
+                lines.append('%sexcept NameError: _abort(%d)' % (pad, i))
+                lines.append('%selse: %s = (%r, %d)' % (pad, it['x'], it['x'], bi))
             elif k in ('global', 'nonlocal'):
                 nid()
                 lines.append('%s%s %s' % (pad, k, it['x']))
@@ -161,6 +171,10 @@ def executable(prog):
 UNBOUND = ('<unbound>', -1)
 
 
+class _Abort(BaseException):
+    pass
+
+
 def run_executable(prog, occs):
     """Executes the program; returns {use occ id: set of tokens seen} (token = binding occ id,
     -1 for unbound, -2 for a value that is not a binding token (function/class object))."""
@@ -182,13 +196,20 @@ def run_executable(prog, occs):
     def _c(i, v):
         _u(i, v)
         return v
-    g = {'_u': _u, '_c': _c, '_UNBOUND': UNBOUND, '__name__': '__scopes__'}
+    def _abort(i):
+        # an assignment whose right-hand side is unbound: the real program stops here with
+        # NameError; the binding does not happen.  The program is not an executable program.
+        seen.setdefault(i, set()).add(-1)
+        raise _Abort()
+    g = {'_u': _u, '_c': _c, '_abort': _abort, '_UNBOUND': UNBOUND, '__name__': '__scopes__'}
     import sys
     old = sys.getrecursionlimit()
     sys.setrecursionlimit(200)
     try:
         exec(compile(src, '<scopes>', 'exec'), g)
         err = None
+    except _Abort:
+        err = 'aborted'
     except RecursionError:
         err = 'RecursionError'
     except Exception as e:   # e.g. TypeError when a call hits a non-callable token
@@ -203,13 +224,18 @@ def run_executable(prog, occs):
 def gen_items(rng, depth, kind, budget, allow):
     """kind: 'module' | 'function' | 'class' """
     items = []
+    pending = []      # calls issued later in the same body
     n = rng.randint(1, 4 if depth else 5)
     for _ in range(n):
+        if pending and rng.random() < 0.4:
+            items.append(pending.pop(0))
         if budget[0] <= 0:
             break
         budget[0] -= 1
         r = rng.random()
-        if r < 0.30:
+        if r < 0.08 and 'assign' in allow:
+            items.append({'k': 'assign', 'x': rng.choice(NAMES), 'y': rng.choice(NAMES)})
+        elif r < 0.30:
             items.append({'k': 'bind', 'x': rng.choice(NAMES)})
         elif r < 0.58:
             items.append({'k': 'use', 'x': rng.choice(NAMES)})
@@ -223,8 +249,11 @@ def gen_items(rng, depth, kind, budget, allow):
                 params = rng.sample(NAMES, rng.choice([0, 0, 1, 2]))
                 body = gen_items(rng, depth + 1, 'function', budget, allow)
                 items.append({'k': 'def', 'kind': 'function', 'name': name, 'params': params, 'body': body})
-                if rng.random() < 0.85:
+                r2 = rng.random()
+                if r2 < 0.5:
                     items.append({'k': 'call', 'x': name, 'n': len(params)})
+                elif r2 < 0.9:
+                    pending.append({'k': 'call', 'x': name, 'n': len(params)})
             else:
                 name = rng.choice(CNAMES)
                 body = gen_items(rng, depth + 1, 'class', budget, allow)
@@ -236,10 +265,11 @@ def gen_items(rng, depth, kind, budget, allow):
             items.append({'k': 'comp', 'var': rng.choice(NAMES), 'x': rng.choice(NAMES)})
         else:
             items.append({'k': 'use', 'x': rng.choice(NAMES)})
+    items.extend(pending)
     return items
 
 
-def gen_program(rng, size=14, allow=('lambda', 'comp')):
+def gen_program(rng, size=14, allow=('lambda', 'comp', 'assign')):
     for _ in range(200):
         prog = gen_items(rng, 0, 'module', [size], allow)
         src, occs = plain(prog)
@@ -256,6 +286,7 @@ def enumerate_small(max_items, names=('a', 'b'), allow_def=True):
     atoms = []
     for x in names:
         atoms += [{'k': 'bind', 'x': x}, {'k': 'use', 'x': x}]
+    atoms += [{'k': 'assign', 'x': names[0], 'y': names[0]}, {'k': 'assign', 'x': names[0], 'y': names[-1]}]
 
     def bodies(n, kind, depth):
         # yields lists of items with exactly n items in total
@@ -268,7 +299,8 @@ def enumerate_small(max_items, names=('a', 'b'), allow_def=True):
                 extra.append({'k': 'global', 'x': x})
                 if depth >= 2:
                     extra.append({'k': 'nonlocal', 'x': x})
-        for first in atoms + extra:
+        calls = [{'k': 'call', 'x': 'f', 'n': 0}] if allow_def and depth < 2 else []
+        for first in atoms + extra + calls:
             for rest in bodies(n - 1, kind, depth):
                 yield [first] + rest
         if allow_def and depth < 2:
@@ -278,7 +310,7 @@ def enumerate_small(max_items, names=('a', 'b'), allow_def=True):
                         for rest in bodies(n - 1 - m, kind, depth):
                             if k2 == 'function':
                                 d = {'k': 'def', 'kind': 'function', 'name': 'f', 'params': [], 'body': inner}
-                                yield [d, {'k': 'call', 'x': 'f', 'n': 0}] + rest
+                                yield [d] + rest
                             else:
                                 yield [{'k': 'def', 'kind': 'class', 'name': 'K', 'params': [], 'body': inner}] + rest
     for n in range(1, max_items + 1):
@@ -298,7 +330,9 @@ ROLES = {'bind': 0, 'use': 1, 'global': 2, 'nonlocal': 3, 'param': 4, 'def': 5}
 
 
 def flat(prog):
-    """returns dict(scopes=[[kind, parent, defOcc]], occs=[[nameIdx, role, scope]], names=[...]).
+    """returns dict(scopes=[[kind, parent, defOcc]], occs=[[nameIdx, role, scope, stmtStart]], names=[...]).
+    stmtStart = index of the first occurrence of the enclosing assignment statement (jedi looks names up
+    from the start of the expr_stmt), else the occurrence's own index.
     Occurrence order = the order of `plain` (pre-order)."""
     names = []
 
@@ -313,27 +347,30 @@ def flat(prog):
         for it in items:
             k = it['k']
             if k in ('bind', 'use', 'global', 'nonlocal'):
-                occs.append([nm(it['x']), ROLES[k], s])
+                occs.append([nm(it['x']), ROLES[k], s, len(occs)])
+            elif k == 'assign':
+                occs.append([nm(it['x']), ROLES['bind'], s, len(occs)])
+                occs.append([nm(it['y']), ROLES['use'], s, len(occs) - 1])
             elif k == 'call':
-                occs.append([nm(it['x']), ROLES['use'], s])
+                occs.append([nm(it['x']), ROLES['use'], s, len(occs)])
             elif k == 'def':
                 d = len(occs)
-                occs.append([nm(it['name']), ROLES['def'], s])
+                occs.append([nm(it['name']), ROLES['def'], s, len(occs)])
                 scopes.append([KINDS[it['kind']], s, d])
                 t = len(scopes) - 1
                 for p in it['params']:
-                    occs.append([nm(p), ROLES['param'], t])
+                    occs.append([nm(p), ROLES['param'], t, len(occs)])
                 walk(it['body'], t)
             elif k == 'lambda':
                 scopes.append([KINDS['lambda'], s, -1])
                 t = len(scopes) - 1
                 for p in it['params']:
-                    occs.append([nm(p), ROLES['param'], t])
-                occs.append([nm(it['x']), ROLES['use'], t])
+                    occs.append([nm(p), ROLES['param'], t, len(occs)])
+                occs.append([nm(it['x']), ROLES['use'], t, len(occs)])
             elif k == 'comp':
                 scopes.append([KINDS['comp'], s, -1])
                 t = len(scopes) - 1
-                occs.append([nm(it['x']), ROLES['use'], t])
-                occs.append([nm(it['var']), ROLES['bind'], t])
+                occs.append([nm(it['x']), ROLES['use'], t, len(occs)])
+                occs.append([nm(it['var']), ROLES['bind'], t, len(occs)])
     walk(prog, 0)
     return {'scopes': scopes, 'occs': occs, 'names': names}
